@@ -47,8 +47,11 @@ SHAPES = {
     "S14": [["a", "int", "req"], ["b", "listdv", "dv"]],
     "S15": [["a", "int", "req"], ["e", "enum", "dv"]],
     "S16": [["n", "nested", "req"], ["e", "enum", "req"]],
+    # factories that can not be rendered as a literal: a model instance, a non-empty list (called anew on every load)
+    "S17": [["a", "int", "req"], ["b", "nested", "df"]],
+    "S18": [["a", "int", "req"], ["b", "any", "df"]],
 }
-QUICK_SHAPES = ["S1", "S2", "S3", "S4", "S6", "S8", "S10", "S14", "S15"]
+QUICK_SHAPES = ["S1", "S2", "S3", "S4", "S6", "S8", "S10", "S14", "S15", "S17"]
 
 
 # ------------------------------------------------------------------------------------------------------------
